@@ -991,12 +991,31 @@ func callBuiltin(caller *frame, callpos token.Pos, fn *ssa.Builtin, args []value
 			return append(arg0, strBytes(args[1])...)
 		}
 		// append([]T, ...[]T) []T
-		return append(args[0].([]value), args[1].([]value)...)
+		res := append(args[0].([]value), args[1].([]value)...)
+		if caller.i.st.race != nil {
+			// the elements written (in place when the capacity suffices) and those read
+			n0 := len(args[0].([]value))
+			for k := n0; k < len(res); k++ {
+				caller.i.st.raceAccessCell(caller, &res[k], true, token.NoPos)
+			}
+			src := args[1].([]value)
+			for k := range src {
+				caller.i.st.raceAccessCell(caller, &src[k], false, token.NoPos)
+			}
+		}
+		return res
 
 	case "copy": // copy([]T, []T) int or copy([]byte, string) int
 		src := args[1]
 		if isStr(src) {
 			src = strBytes(src)
+		}
+		if caller.i.st.race != nil {
+			dst, sv := args[0].([]value), src.([]value)
+			for k := 0; k < len(dst) && k < len(sv); k++ {
+				caller.i.st.raceAccessCell(caller, &dst[k], true, token.NoPos)
+				caller.i.st.raceAccessCell(caller, &sv[k], false, token.NoPos)
+			}
 		}
 		return copy(args[0].([]value), src.([]value))
 
